@@ -431,7 +431,7 @@ func addSeqLayer(ss *scenarioSet, thorough bool) {
 								pack.Pack = append(pack.Pack, &sub)
 							}
 						}
-						sub := Scenario{Name: name, Signal: sig, S: uint32(sz), M: uint32(m), Timeout: T, NumCPU: 1, K: 1,
+						sub := Scenario{Name: name, Signal: sig, S: uint32(sz), M: uint32(m), Timeout: T, NumCPU: 1, K: 1, SinkFail: a+b <= 5,
 							Callers: []CallerSpec{{Label: "A", Reqs: reqs}}}
 						pack.Pack = append(pack.Pack, &sub)
 					}
